@@ -245,7 +245,11 @@ class WebSocket(object):
             log.debug('%r already closed', self)
         else:
             if not self.is_closing:
-                self._send_close(code, reason)
+                try:
+                    self._send_close(code, reason)
+                except (errors.WebSocketClosing, errors.WebSocketClosed):
+                    # Another thread sent a close frame first
+                    return
                 self.state.closing = True
                 self.state.sent_close_time = self.session.session_time
 
@@ -532,6 +536,9 @@ class WebSocket(object):
             raise ValueError('close reason should be <= 123 bytes')
         try:
             self.session.send(Opcode.CLOSE, frame_bytes)
+        except (errors.WebSocketClosing, errors.WebSocketClosed):
+            # Lost the race against a close from another thread
+            raise
         except (errors.WebSocketUnavailable, errors.TransportFail):
             return False
         else:
